@@ -144,6 +144,30 @@ CHECKS += [
          technique="symbolic execution of operator matrices on polynomial terms; z3 QF_NRA commutator identity proofs for every pair reported commuting"),
 ]
 
+CHECKS += [
+    dict(property_id="C26", category="proof", engine=E1,
+         text="Kernel-covering circuit family: for each specialised apply_operation registration and the generic einsum/tensordot paths (40 kernels incl. "
+              "operator arithmetic, controlled with mixed control values, broadcast parameters, StatePrep/BasisState prefixes, string labels) one circuit per "
+              "target-wire placement on 1-4 wires behind an entangling symbolic prefix; the REAL get_final_state/measure_final_state run on symbolic terms and z3 "
+              "proves for ALL angles: state == own matrix-route state, and expval (Pauli words, sums, Hermitian, Projector) / var / probs (subsets, permuted) / "
+              "density_matrix / purity == own formulas on that vector.",
+         note=PROOF_NOTE + " Outside: entropies/mutual information (log), kernels behind the >=13-axis / >=9-wire thresholds, other interfaces, finite shots, mid-circuit measurements.",
+         technique="symbolic execution of default.qubit apply_operation/measure kernels on polynomial terms vs an independent matrix-route oracle; z3 QF_NRA"),
+    dict(property_id="C17", category="proof", engine=E1,
+         text="Circuit skeletons (<=6 gates, <=3 wires, symbolic angles) are pushed through the REAL cancel_inverses, merge_rotations, commute_controlled (both "
+              "directions), undo_swaps, combine_global_phases, remove_barrier and qp.compile pipelines in forking mode (zero-angle shortcuts explored through the "
+              "solver; an angle equality a+b=0 is linked to the circle atoms); on every explored path z3 proves U_out == U_in (or proportional) for ALL angles, "
+              "for undo_swaps equality of expval/probs/var results; the pass must return without raising.",
+         note=PROOF_NOTE + " Unsupported and listed: paths through `% 2*pi` on half-angle atoms. Outside: single_qubit_fusion/unitary_to_rot (arctan2), pattern_matching, ZX/rowcol passes, Rot fusion.",
+         technique="forking symbolic execution of the optimisation passes on polynomial terms; z3 QF_NRA unitary-equality proofs per path"),
+    dict(property_id="C18", category="proof", engine=E1,
+         text="Monitor on the C17 harness: on every solver-selected path of every (skeleton, pass/pipeline) run the input tape is compared with a snapshot taken "
+              "before the call - identity and order of operations and measurements, identity and values of all data entries, wires, trainable_params, shots - "
+              "after the transform returned and again after its post-processing ran (the cached tape.hash is not trusted).",
+         note=PROOF_NOTE + " The comparison itself is structural; the solver's role is selecting all value-dependent paths of the passes from symbolic angles. Outside: transforms not driven by this harness.",
+         technique="forking symbolic execution of the passes with a structural input-snapshot monitor on every solver-selected path"),
+]
+
 _NOT_BUILT = "claimed in DESIGN.md §4 but its solver-based check is not built yet in this tree"
 NOT_APPLICABLE_REASONS = {
     "C04": "equality/hash: Python hash() of concrete payloads and tolerance-based allclose relations; no exact relation a solver can decide",
